@@ -43,6 +43,28 @@ def body_tol(s, ctxname):
     return False
 
 
+def body_tol_entry(s, ctxname):
+    """the same totality through the other public parsing entry point, LatexWalker.get_latex_nodes()."""
+    import warnings
+    from pylatexenc.latexwalker import LatexWalker
+    from vlib.oracles import StepBudget
+    from vlib.common import BudgetExceeded
+    ctx = get_ctx(ctxname)
+    kw = {} if ctx is None else dict(latex_context=ctx)
+    try:
+        with warnings.catch_warnings():
+            warnings.simplefilter('ignore')
+            with StepBudget(len(s)):
+                r = LatexWalker(s, tolerant_parsing=True, **kw).get_latex_nodes()
+    except BudgetExceeded:
+        fail('get_latex_nodes did not finish within the step budget')
+    except Exception as e:
+        fail('tolerant get_latex_nodes raised %s' % type(e).__name__)
+    require(isinstance(r, tuple) and len(r) == 3, 'get_latex_nodes did not return (nodes, pos, len)')
+    require(r[0] is not None and isinstance(r[1], int) and isinstance(r[2], int), 'get_latex_nodes returned no nodes/position')
+    return len(r[0]) >= 1
+
+
 def body_prefix(s, ctxname, la):
     """s = A + stray closing token + garbage, A = s[:la] strictly parseable: A's top-level nodes survive."""
     a = s[:la]
@@ -69,8 +91,9 @@ def body_prefix(s, ctxname, la):
 STRAYS = [('cbrace', '}'), ('endE', BS + 'end{E}'), ('cparen', BS + ')'), ('cbrack', BS + ']')]
 
 
-def prefix_pre(base, stray, ng):
-    a = base.replace('|', '')
+def prefix_pre(base, stray, ng, gap):
+    """A (digit holes) [+ one free character if gap] + stray + ng free garbage characters."""
+    a = base.replace('|', '') + ('!' if gap else '')
     sk = a + stray + '!' * ng
     pre = ['len(s) == %d' % len(sk)]
     for i, ch in enumerate(sk):
@@ -95,6 +118,9 @@ def conditions(tier):
             conds.append(Cond('tol_%s_eq%d_%s' % (ctx, n, tag), 's: str', ['len(s) == %d' % n, pre],
                               'body_tol(s, %r)' % ctx, timeout=T * (1 if n < 4 else 4), cost=5,
                               twin=(tag not in ('p_eq37',))))
+    for ctx, n in ([('S', 2), ('D', 2)] if quick else [('S', 3), ('SU', 3), ('D', 3)]):
+        conds.append(Cond('entry_%s_le%d' % (ctx, n), 's: str', ['len(s) <= %d' % n], 'body_tol_entry(s, %r)' % ctx,
+                          timeout=T, smoke=[dict(s=x) for x in ('', '}', 'a}', BS + ')', '{', 'ab' + BS, '$')]))
     sk_s = SKELETONS_S if not quick else [x for x in SKELETONS_S if x[0] in (
         'a_tok', 'b_sp', 'c_end', 'e_part', 'q_absent', 'v_brace', 'nl_opt', 'env_F2', 'env_V', 'math_dd',
         'nest_optgrp', 't_math')]
@@ -112,12 +138,15 @@ def conditions(tier):
                                   descr='skeleton %r (? = any character)' % sk))
     for bi, (nm, base) in enumerate(FAULT_BASES):
         for si, (snm, stray) in enumerate(STRAYS):
-            if quick and (bi + si) % 5 != 0:
-                continue
-            pre, la, sk = prefix_pre(base, stray, 1 if quick else 2)
-            conds.append(Cond('prefix_%s_%s' % (nm, snm), 's: str', pre, "body_prefix(s, 'S', %d)" % la, timeout=T,
-                              smoke=[dict(s=sk.replace('?', '7').replace('!', c)) for c in 'x}$'],
-                              descr='well-formed %r + stray %r + free garbage' % (base.replace('|', ''), stray)))
+            for gap in (True, False):
+                if quick and (bi + si) % 5 != (0 if gap else 2):
+                    continue
+                pre, la, sk = prefix_pre(base, stray, 1 if quick else 2, gap)
+                conds.append(Cond('prefix_%s_%s_%s' % (nm, snm, 'gap' if gap else 'adj'), 's: str', pre,
+                                  "body_prefix(s, 'S', %d)" % la, timeout=T,
+                                  smoke=[dict(s=sk.replace('?', '7').replace('!', c)) for c in 'x} \n'],
+                                  descr='well-formed %r%s + stray %r + free garbage' % (
+                                      base.replace('|', ''), ' + one free character' if gap else '', stray)))
     return conds
 
 
@@ -127,8 +156,8 @@ META = dict(
                'LatexNodesCollector, LatexExpressionParser, LatexDelimitedGroupParser, LatexMathParser, call parsers '
                '(tolerant branches)'],
     bounds=dict(quick='every Unicode string of length <= 3 (CTX_S), <= 2 (CTX_SU, default context); 15 skeletons, each hole '
-                      'in turn free (any character) with the others pinned; 19 base documents x 4 stray closing tokens (every '
-                      '5th pair) + 1 free garbage character',
+                      'in turn free (any character) with the others pinned; 19 base documents [+ one free character] + one of 4 stray '
+                      'closing tokens (2 of every 5 pairs) + 1 free garbage character',
                 thorough='length <= 4 (CTX_S, CTX_SU), <= 3 default; all skeletons, all hole windows; all 76 base x stray '
                          'pairs with 2 free garbage characters'),
     stubs=['logging disabled', 'step budget on LatexTokenReader.peek_token: exceeding 400+60(n+2)^2 peeks is reported as '
